@@ -115,7 +115,9 @@ func BuildPlugins() (string, string, error) {
 	return dir, th, nil
 }
 
-// pruneDirs keeps the newest `keep` subdirectories of dir (plus `protect`).
+// pruneDirs removes subdirectories of dir that are older than two hours (never `protect`), keeping
+// at least `keep` of the newest. Age-based so that concurrently running checks never lose their
+// own scratch directories.
 func pruneDirs(dir string, keep int, protect string) {
 	ents, err := os.ReadDir(dir)
 	if err != nil {
@@ -138,7 +140,7 @@ func pruneDirs(dir string, keep int, protect string) {
 	}
 	sort.Slice(ds, func(i, j int) bool { return ds[i].t.After(ds[j].t) })
 	for i, d := range ds {
-		if i >= keep && d.p != protect {
+		if i >= keep && d.p != protect && time.Since(d.t) > 2*time.Hour {
 			os.RemoveAll(d.p)
 		}
 	}
